@@ -87,7 +87,7 @@ type opSpec struct {
 // contentSpec describes the bytes of one file content and what it answers.
 type contentSpec struct {
 	Kind    string `json:"k"` // ok | malformed | fail
-	Variant string `json:"v"` // ok: "" ; malformed: nodesc nocaps badcontract notjson emptyver emptyname ; fail: exit1 errjson text
+	Variant string `json:"v"` // ok: "" dupname multicontract ; malformed: nodesc nourl nocaps badcontract notjson emptyver emptyname ; fail: exit1 errjson text
 	Name    string `json:"name,omitempty"`
 	Version string `json:"ver,omitempty"`
 	Salt    int    `json:"s,omitempty"`
@@ -164,8 +164,12 @@ type metaJSON struct {
 // specMeta: the six metadata fields a content of kind "ok" is specified to print (checkTruth runs every
 // such content directly and compares the decoded output with this, field by field).
 func specMeta(c contentSpec) metaJSON {
-	return metaJSON{Name: c.Name, Description: "stub plugin", Version: c.Version, URL: "https://example.test/p",
+	m := metaJSON{Name: c.Name, Description: "stub plugin", Version: c.Version, URL: "https://example.test/p",
 		SupportedContractVersions: []string{"1.0"}, Capabilities: []string{"SIGNATURE_GENERATOR.RAW"}}
+	if c.Kind == "ok" && c.Variant == "multicontract" { // the supported contract version is not the first of the list
+		m.SupportedContractVersions = []string{"2.0", "1.0", "0.9"}
+	}
+	return m
 }
 
 func contentBytes(c contentSpec) []byte {
@@ -197,6 +201,8 @@ func contentBytes(c contentSpec) []byte {
 			m.SupportedContractVersions = []string{}
 		case "nodesc":
 			m.Description = ""
+		case "nourl": // each check of plugin.validate is decisive on its own
+			m.URL = ""
 		case "nocaps":
 			m.Capabilities = nil
 		case "badcontract":
@@ -230,6 +236,15 @@ func contentBytes(c contentSpec) []byte {
 	return []byte("#!/bin/sh\n" + salt + "printf '%s\\n' '" + string(b) + "'\n")
 }
 
+func containsStr(l []string, x string) bool {
+	for _, y := range l {
+		if y == x {
+			return true
+		}
+	}
+	return false
+}
+
 // truth: what a content answers, established by running it directly (not through notation-go).
 var truthCache = map[string]string{}
 
@@ -252,7 +267,7 @@ func checkTruth(scratch string, c contentSpec) {
 	}
 	var m metaJSON
 	if err := json.Unmarshal(out, &m); err != nil || !reflect.DeepEqual(m, specMeta(c)) || m.Name == "" || m.Version == "" ||
-		m.Description == "" || m.URL == "" || len(m.Capabilities) == 0 || len(m.SupportedContractVersions) != 1 || m.SupportedContractVersions[0] != fwplugin.ContractVersion {
+		m.Description == "" || m.URL == "" || len(m.Capabilities) == 0 || !containsStr(m.SupportedContractVersions, fwplugin.ContractVersion) {
 		panic(fmt.Sprintf("c20: stub answer differs from its specification: %s", out))
 	}
 	truthCache[string(b)] = "ok"
